@@ -368,7 +368,7 @@ def sbs_oracle(c, rows):
                     # an empty input line shows nothing; anything else is stray text
                     why.append(f"row {ri}: text {text.strip()!r} in the {side} panel belongs to no line")
     if geometry_only:
-        return why, ncode
+        return why, ncode, None
     # every line once per side, in order, only on its side(s)
     for side, order in (("L", order_l), ("R", order_r)):
         got = [l["tok"] for l in lines[side]]
@@ -408,7 +408,51 @@ def sbs_oracle(c, rows):
                     why.append(f"fragments of line {l['tok']} ({side}) join to {got!r}, the line is {want!r}")
                 if maxl is not None and l["nrows"] > maxl:
                     why.append(f"line {l['tok']} takes {l['nrows']} rows, the limit is {maxl}")
-    return why, ncode
+    return why, ncode, lines
+
+
+def realign_blocks(c, lines):
+    """per block of removed/added lines: (entries, wm, wp, observed rows) read from the output"""
+    by = {side: {l["tok"]: l for l in lines[side]} for side in "LR"}
+    out = []
+    for s in c["diff"]["sections"]:
+        for h in s["hunks"]:
+            block = []
+            for k, t in h["body"] + [(" ", "")]:
+                if k in "-+":
+                    block.append((k, t.split(" ")[0]))
+                    continue
+                if block:
+                    L = [by["L"].get(tk) for kk, tk in block if kk == "-"]
+                    R = [by["R"].get(tk) for kk, tk in block if kk == "+"]
+                    if all(L) and all(R) and (L or R):
+                        out.append((L, R))
+                block = []
+    res = []
+    for L, R in out:
+        # entries in output order; a removed and an added line starting on the same row are paired
+        ents, i, j = [], 0, 0
+        while i < len(L) or j < len(R):
+            if i < len(L) and j < len(R) and L[i]["first_row"] == R[j]["first_row"]:
+                ents.append("B"); i += 1; j += 1
+            elif j >= len(R) or (i < len(L) and L[i]["first_row"] < R[j]["first_row"]):
+                ents.append("L"); i += 1
+            else:
+                ents.append("R"); j += 1
+        wm, wp = [l["nrows"] for l in L], [l["nrows"] for l in R]
+        occ = {}
+        for side, ls in (("L", L), ("R", R)):
+            n = 0
+            for l in ls:
+                for r in range(l["first_row"], l["first_row"] + l["nrows"]):
+                    occ.setdefault(r, {})[side] = n
+                    n += 1
+        obs = []
+        for r in sorted(occ):
+            o = occ[r]
+            obs.append("B%d:%d" % (o["L"], o["R"]) if len(o) == 2 else ("L%d" % o["L"] if "L" in o else "R%d" % o["R"]))
+        res.append((ents, wm, wp, obs))
+    return res
 
 
 def main(tier, replay=None):
@@ -505,6 +549,7 @@ def main(tier, replay=None):
 
     with ThreadPoolExecutor(max_workers=vlib.NCPU) as ex:
         res = list(ex.map(work, cases))
+    nre = rem = 0
     for c, (rc, out, err) in zip(cases, res):
         chk.count("width:%s" % ("odd" if c["width"] % 2 else "even"))
         chk.count("limit:%s" % c["max_lines"])
@@ -514,13 +559,22 @@ def main(tier, replay=None):
                            "input": "\n".join(gdiff.diff_lines(c["diff"]))[:3000]})
             continue
         rows = term.strip(out).split("\n")
-        why, ncode = sbs_oracle(c, rows)
+        why, ncode, parsed = sbs_oracle(c, rows)
+        if parsed and not why and "--line-buffer-size" not in c["extra"]:
+            for ents, wm_, wp_, obs in realign_blocks(c, parsed):
+                nre += 1
+                m = vm.ask("realign", ",".join(ents), ",".join(map(str, wm_)), ",".join(map(str, wp_))).split("\t")[1]
+                if m != ",".join(obs):
+                    rem += 1
+                    if rem <= 3:
+                        vlib.log(f"[C07] realign mismatch entries={ents} wm={wm_} wp={wp_}: model {m} impl {','.join(obs)}")
         wrapped = any(SYM_L in r or SYM_T in r or SYM_R in r for r in rows)
         chk.case((json.dumps(c, sort_keys=True),), wrapped, {"width": c["width"], "extra": c["extra"], "code_rows": ncode})
         if why:
             chk.violation({"property": PID, "shape": "sbs", "why": "; ".join(why[:3]), "case": c,
                            "input": "\n".join(gdiff.diff_lines(c["diff"]))[:3000], "rows": rows[:60]})
-    chk.extra["traces_validated_against_impl"] = (len(wcases) - wm) + (len(tcases) - tm)
+    chk.oblige("correspondence:realign-rows", rem == 0, f"{rem} of {nre} blocks of removed/added lines are laid out over the rows differently from the model")
+    chk.extra["traces_validated_against_impl"] = (len(wcases) - wm) + (len(tcases) - tm) + (nre - rem)
     chk.assumptions = ["grapheme clusters = scalar values, or a base letter plus U+0301, on the generator's alphabet; widths from the harness's "
                        "own width table (tools/term.py)",
                        "the pairing clause is evaluated on removed/added pairs that differ in the token and at most one word",
